@@ -529,7 +529,7 @@ MANIFEST = {
     "text": "Exploration: hundreds (quick) to tens of thousands (thorough) of complete simulated races - rally's real CLI, race control, mechanic, driver, "
     "track-preparation and worker actors on a deterministic actor kernel with seeded message delays/orders, real executors on virtual-time loops, a simulated "
     "Elasticsearch - each checked offline against a reference model of the schedule: step barrier on the ground-truth request log, every allocation runs exactly "
-    "once, iteration counts of tasks outside completed-by elements, exactly one completion, CompleteCurrentTask at most once per step and obeyed, no stall.",
+    "once, iteration counts of tasks outside completed-by elements, exactly one completion, CompleteCurrentTask at most once per step and obeyed, a completed-by element ends within a bound after its completing task (a client counts as carrying on when it begins two more requests after the bound), no stall. Targeted shapes: idle between rows, throttled completing task, two completed-by elements in test mode.",
     "note": "The completed-by flags of the reference are those written in the schedule, not those of the loaded track. Holds for the interleavings the Thespian model produces (FIFO per pair, reliable delivery); transports, message loss and admin restarts are outside the model.",
     "technique": "runtime monitor: offline trace checker (request log + actor message history) against a schedule reference model, over seeded actor-message interleavings in virtual time",
     "engines": ["vclock", "simactor", "simes", "race"],
